@@ -638,11 +638,13 @@ fn exec_inproc(sc: &Scenario, opts: &ExecOpts) -> RunOutcome {
     install_panic_hook();
     let vfs = Arc::new(Vfs::new(&sc.cwd, &sc.vfs, sc.knobs.open_budget));
     let n = sc.threads.len();
-    let sched = if n > 1 {
+    let free = matches!(sc.schedule, Schedule::Free);
+    let sched = if n > 1 && !free {
         Some(Sched::new(n, &sc.schedule, sc.knobs.step_budget))
     } else {
         None
     };
+    let barrier = Arc::new(std::sync::Barrier::new(n.max(1)));
     let shared = Arc::new(Shared {
         vfs: vfs.clone(),
         sched,
@@ -679,6 +681,7 @@ fn exec_inproc(sc: &Scenario, opts: &ExecOpts) -> RunOutcome {
         let prog = prog.clone();
         let shared = shared.clone();
         let opts = opts.clone();
+        let barrier = barrier.clone();
         let h = std::thread::Builder::new()
             .name(format!("sim-{}", tid))
             .stack_size(sc.knobs.stack_mib.max(1) << 20)
@@ -686,6 +689,8 @@ fn exec_inproc(sc: &Scenario, opts: &ExecOpts) -> RunOutcome {
                 let ctx = SimCtx::new(tid, shared.clone());
                 if let Some(s) = &shared.sched {
                     s.thread_start(tid);
+                } else if free {
+                    barrier.wait();
                 }
                 let _guard = FinishGuard { shared: &shared, tid };
                 verif::install(Some(ctx.clone() as Arc<dyn Sim>));
